@@ -395,8 +395,8 @@ pub fn property() -> Property {
             prop_sub(
                 "histories",
                 "record sequences with Stdin/Data records in any order, matching and foreign ids, empty and non-empty, plus noise x caller schedules mixing the C02 actions with set_stream(None|Stdin|Data) at arbitrary points; every selection is checked against the role order; delivered bytes per stream must be a prefix of that stream's content, nothing for streams outside the role or after None, the finally selected stream must be complete (premature later-stream records are held, not lost); non-trivial = >=1 accepted move and >=1 rejected selection",
-                80_000,
-                2_000_000,
+                400_000,
+                8_000_000,
                 |_| hist_strategy(),
                 test_hist,
             ),
